@@ -38,14 +38,18 @@ MANIFEST = {
             "(explicit guard req_prog) and an exception serialiser that is the identity, run_dist = run_sync (outcome, per-node "
             "execution counts, num_retries) by mutual induction on the program. The full-strength statement is kept as a "
             "Definition and REFUTED (sync mode is lazy: a never-read sub-task / a group member after a failing one runs 0 times "
-            "in sync mode, once distributed); the serialiser hypothesis is shown necessary (RetryError arguments are dropped). "
+            "in sync mode, once distributed); the serialiser hypothesis is shown necessary (an argument-dropping serialiser changes "
+            "the outcome); retry_race_refuted: while set_invocation_retry publishes RETRY before incrementing, the schedule 're-run "
+            "before the increment lands' executes max_retries+2 times; with the increment first the racy run is the ordinary run. "
             "Tie: fail-closed AST translator regenerates the facts under the theorems on every run; every generated case runs on "
             "the real code in the three modes and on both model interpreters; an implementation-only oracle decides violations.",
     "note": "Trusted: Coq kernel; the translator's shape recognition (tied by the three-way correspondence, which runs the same "
             "cases whether or not the translator degrades); the hand-written interpreters (tied by the correspondence: outcome, "
             "per-node execution multiset, num_retries); exception serialiser of the state backend is an oracle measured on the "
-            "implementation per run. Known findings: lazy-sync:unread-call, lazy-sync:group-after-failure, "
-            "exc-args-lost:RetryError (proposed fix C19-pynencerror-args.diff). Real ThreadRunner in a thread with 2 ms loop "
+            "implementation per run. Known findings: lazy-sync:unread-call, lazy-sync:group-after-failure (no small safe repair: "
+            "the unit suite pins the laziness), retry-race:stale-counter (proposed fix C19-retry-increment-before-publish.diff; "
+            "exhibited under the harness schedule delay-increment, and by chance in long runs); exc-args-lost:<Type> was fixed in "
+            "/repo by b9020c7 (C19-pynencerror-args.diff is the same repair). Real ThreadRunner in a thread with 2 ms loop "
             "sleeps; verdict observations (outcome, execution counts, final num_retries) do not depend on timing for pure bodies; "
             "groups whose members can fail with different exceptions are not generated (completion order would pick the winner).",
     "design_ref": "DESIGN.md §6 C19",
